@@ -31,6 +31,12 @@ pub fn run(out: &mut Out, seed: u64, tier: &str) {
     let n_random = if tier == "thorough" { 1200 } else { 160 };
     let mut mols: Vec<Mol> = library();
     for _ in 0..n_random { let m = random_mol(&mut rng); mols.push(distort(&m, rng.range(0.02, 0.2), &mut rng)); }
+    // the same in the orientation a z-matrix or a builder gives (first atom at the origin, second on the x axis, third in the xy
+    // plane: exact coordinate ties between atoms), for the library, for idealised centres and for distorted copies
+    { let lib = library(); for m in lib.iter() { mols.push(standard_orientation(m)); mols.push(standard_orientation(&distort(m, 0.1, &mut rng))); } }
+    for z in [15usize, 33, 6, 7, 5, 16, 51] { for g in ["pyramidal", "trigonal", "tetrahedral", "tshape"] {
+        mols.push(standard_orientation(&distort(&centre(z, *rng.pick(&[1usize, 9, 17]), g, 1.0), 0.08, &mut rng)));
+    } }
     // structures with a bond angle of 168-176 degrees next to a torsion: whether the torsion is kept (the construction drops
     // it within 0.1 rad of linear) must not depend on how the molecule lies in the frame
     let base: Vec<Mol> = mols.iter().take(if tier == "thorough" { 300 } else { 70 }).cloned().collect();
